@@ -2,7 +2,7 @@
 import itertools
 import vlib
 ID = 'C18'
-LEAN_MODULES = ['TboxModel.C18.Props', 'TboxModel.C18.SemWidth', 'TboxModel.C18.Progress']
+LEAN_MODULES = ['TboxModel.C18.Props', 'TboxModel.C18.SemWidth', 'TboxModel.C18.Progress', 'TboxModel.C18.Props5', 'TboxModel.C18.Compact']
 EXE = 'c18'
 THEOREMS = ['Tbox.C18.C18_reachable_inv', 'Tbox.C18.C18_channel_fifo_once', 'Tbox.C18.C18_mutex_exclusive',
             'Tbox.C18.C18_semaphore_bound', 'Tbox.C18.C18_no_lost_wakeup', 'Tbox.C18.C18_no_lost_wakeup_quiescent',
@@ -16,7 +16,15 @@ THEOREMS = ['Tbox.C18.C18_reachable_inv', 'Tbox.C18.C18_channel_fifo_once', 'Tbo
             'Tbox.C18.C18_abort_final', 'Tbox.C18.SemW.C18_semw_bound', 'Tbox.C18.SemW.C18_semw_exact',
             'Tbox.C18.SemW.C18_semw_negative_counterexample', 'Tbox.C18.SemW.C18_semw_overflow_counterexample',
             # progress form of no-lost-wake-up: matched programs end with every routine dead
-            'Tbox.C18.C18_progress', 'Tbox.C18.C18_progress_conservation']
+            'Tbox.C18.C18_progress', 'Tbox.C18.C18_progress_conservation',
+            # round 5: progress with nested ordered locks and acyclic joins; Locker (RAII); stack size; resume inside a routine; scale
+            'Tbox.C18.C18_progress_unordered_locks_counterexample', 'Tbox.C18.C18_progress_join_cycle_counterexample',
+            'Tbox.C18.C18_progress_broadcast_needs_order_counterexample', 'Tbox.C18.C18_progress_condition_needs_order_counterexample',
+            'Tbox.C18.C18_stack_clamped', 'Tbox.C18.C18_stack_create_safe', 'Tbox.C18.C18_stack_zero_corrupts_counterexample',
+            'Tbox.C18.C18_locker_dtor_foreign_noop', 'Tbox.C18.C18_locker_holds_unless_cancelled', 'Tbox.C18.C18_locker_unwind_releases',
+            'Tbox.C18.C18_locker_releases_on_return', 'Tbox.C18.C18_locker_cancel_inside_scope',
+            'Tbox.C18.C18_locker_scope_not_exclusive_counterexample', 'Tbox.C18.C18_locker_same_mutex_not_recursive_counterexample',
+            'Tbox.C18.C18_resume_self', 'Tbox.C18.C18_act_on_fresh_token', 'Tbox.C18.C18_compact_eq', 'Tbox.C18.C18_stepC_eq']
 SOURCES = ['modules/coroutine/scheduler.cpp'] + vlib.EVENT_SOURCES + vlib.BASE_SOURCES
 FLAVOUR = 'plain'      # ASan does not follow swapcontext (false positives); see DESIGN §6 C18
 LIBS = ['-ldl']
@@ -26,17 +34,18 @@ CASE_TIMEOUT = 30
 SHRINK_TESTS = 80
 MAX_REPORT = 4
 TRUSTED = ['model lean/TboxModel/C18/Model.lean hand-written from modules/coroutine/{scheduler.cpp,channel.hpp,mutex.hpp,semaphore.hpp,'
-           'broadcast.hpp,condition.hpp} AFTER patches/C18-01..07; tied by differential runs of scripted routines on the real scheduler '
+           'broadcast.hpp,condition.hpp} AFTER patches/C18-01..08; tied by differential runs of scripted routines on the real scheduler '
            '(real ucontext switches, real epoll loop; one op line per loop iteration)',
            'ucontext switching (makecontext/swapcontext) and Cabinet token validity (ids never reissued; C08) are trusted',
            'the harness runs without sanitizers (plain flavour): raw memory safety of the coroutine stacks is not observed except by the valgrind sample',
            'abort() = failed TBOX_ASSERT of the debug build (the harness compiles without NDEBUG; a release build dereferences a null '
            'curr_routine instead) or std::terminate for an exception leaving a routine body; every case runs in a child process of its own']
 ASSUMPTIONS = ['routine scripts are finite; main-context calls happen between loop passes',
-               'routine stacks are large enough for the routine body (no guard exists in Routine::Routine; stack_size 0 makes makecontext write below the block)',
+               'routine stacks are large enough for the USER entry function (Routine::Routine clamps stack_size to ROUTINE_STACK_MIN_SIZE = 8 KiB since patches/C18-08, which covers the library\'s own frames; no guard page exists)',
+               'RAII scripts (defr) are created with xfail = false: Locker\'s constructor has no result, so a script cannot return "when lock() fails"; early return inside scopes is the `e` op',
                'the scheduler model keeps semaphore counts as naturals (initial count k >= 0 for semaphore k; exact while releases < 2^31 - 3); the int width is modelled in SemWidth.lean',
                'Cabinet ids do not wrap around (2^64 creations)']
-RULE = ('op files = script definitions + main-context ops (new/resume/cancel/cleanup/pass/main <primitive call>/semw/stack), each followed by one pass of the real event loop; '
+RULE = ('op files = script definitions (def / defr = Mutex::Locker scripts) + main-context ops (new/resume/cancel/cleanup/pass/main <primitive call>/semw/stack/stackb), each followed by one pass of the real event loop; '
         'scripts have NO retry loops, so a missed wake-up leaves a routine visibly blocked in the per-pass summary; non-trivial = at least two '
         'routines blocked at once, or a wake-up of >= 2 waiters, a re-wait, a cancel/cleanup of a blocked routine, or a spurious resume '
         '(driver tags); distinct = distinct op text')
@@ -61,7 +70,7 @@ def rnd_op(rng, nr, ndefs_before, heavy):
         v = rng.randrange(3)
         return rng.choice(['ca%d:%d' % (c, v), 'cw%d' % c, 'cp%d:%d' % (c, v), 'cp%d:%d' % (c, v), 'y'])
     t = rng.randrange(max(nr, 1) + 1)
-    opts = ['y', 'y', 'w', 'j%d' % t, 'x%d' % t]
+    opts = ['y', 'y', 'w', 'j%d' % t, 'x%d' % t, 'R%d' % t]
     if ndefs_before > 0:
         opts += ['n%d' % rng.randrange(ndefs_before), 'N%d' % rng.randrange(ndefs_before)]
     if r < 0.05:
@@ -304,6 +313,95 @@ def audit_families():
         yield ['stack 64', 'def 0 ' + body, 'def 0 ' + ','.join(['n0'] * n), 'new 1 1', 'pass', 'pass', 'main s0:1', 'pass', 'pass', 'cleanup']
 
 
+def round5_families():
+    """directed, deterministic (round 5).
+    (1) stack sizes from 0 (patches/C18-08: clamp to ROUTINE_STACK_MIN_SIZE; as found, makecontext wrote below a malloc(0) block),
+    (2) Mutex::Locker scripts (`defr`): scope left by the end of the script, by `e` (return) inside nested scopes, by a routine that
+        is cancelled INSIDE the critical section (blocked there / about to run), a Locker whose constructor's lock() FAILED because the
+        routine was cancelled while waiting (it enters the critical section without the mutex; ~Locker must not release the holder's
+        lock), nesting on two mutexes and on the SAME mutex (the inner scope's end releases it), cleanup() with scopes open,
+    (3) state-derived arguments: cancel / resume / join of the routine's OWN token, of the token create() has just returned, of the
+        joiner / the holder / a finished routine / an unknown key; Scheduler::resume() called from inside a routine (`R<t>`)."""
+    # ---- (1) stack sizes: both sides of every power of two up to the clamp, around the default, then normal sizes again
+    sizes = [0, 1, 7, 8, 15, 16, 17, 23, 24, 31, 32, 33, 63, 64, 65, 100, 127, 128, 255, 256, 257, 511, 512, 1023, 1024, 1025,
+             2047, 2048, 2049, 4095, 4096, 4097, 8191, 8192, 8193, 16384, 65536]
+    body = 'y,s0:1,r0,l0,u0,ca0:1,cp0:1,a1,v1,p0'
+    for i in range(0, len(sizes), 3):
+        grp = sizes[i:i + 3]
+        ops = ['def 0 ' + body, 'def 0 n0,j1,y,x0,R0', 'defr l0,l1,y,r3']
+        for k, b in enumerate(grp):
+            ops += ['stackb %d' % b, 'new %d %d' % (k % 3, 1 if k != 1 else 0)]
+        ops += ['pass', 'resume 1', 'pass', 'stackb 0', 'new 0 1', 'pass', 'pass', 'cancel 2', 'pass', 'cleanup']
+        yield ops
+    yield ['stackb 0', 'def 0 -', 'new 0 1', 'new 0 0', 'pass', 'cleanup']                       # nothing runs on the stack but the entry frame
+    yield ['stackb 0', 'def 0 ' + ','.join(['n0'] * 40), 'def 0 y', 'new 0 0', 'stackb 1', 'def 0 N0,n1,n1', 'new 2 1', 'pass', 'resume 0', 'pass', 'pass', 'cleanup']
+    yield ['stackb 1000000', 'stackb 999999', 'stackb 0x10', 'stackb -1', 'stackb', 'stackb 1 2', 'stack 0', 'stackb 00', 'pass']
+    # ---- (2) Mutex::Locker
+    for blk in ('r1', 'w', 'a0', 'b0', 'j0', 'y', 'ca0:1,cw0'):
+        # the holder is cancelled while it is blocked INSIDE the critical section; a plain locker and a Locker wait for the mutex
+        yield ['defr l0,%s,s2:1,u0,s2:2' % blk, 'def 0 l0,s2:3,u0', 'defr l0,s2:4', 'new 0 1', 'new 1 1', 'new 2 1', 'pass', 'cancel 0', 'pass', 'pass', 'pass']
+        # ... and never reaches the end of the scope in the script: the scope is left when the routine returns
+        yield ['defr l0,%s,e,s2:1,u0' % blk, 'def 0 l0,s2:3,u0', 'new 0 1', 'new 1 1', 'pass', 'cancel 0', 'pass', 'pass']
+        yield ['defr l0,l1,%s' % blk, 'def 1 l1,s2:3,u1,l0,s2:4,u0', 'new 0 1', 'new 1 1', 'pass', 'cleanup', 'pass']
+        yield ['defr l0,l1,%s' % blk, 'def 0 l1,s2:3,u1,l0,s2:4,u0', 'new 0 1', 'new 1 1', 'pass', 'cancel 0', 'pass', 'pass', 'resume 0', 'pass']
+    for who in (1, 2):
+        # a Locker whose constructor waits for the mutex is cancelled: lock() fails, the routine runs the critical section WITHOUT
+        # the mutex, ~Locker must leave the holder's lock alone; the other waiter is served only after the holder unlocks
+        yield ['def 0 l0,w,s2:9,u0', 'defr l0,s2:5,y,s2:6,u0,s2:7', 'def 0 l0,s2:8,u0', 'new 0 1', 'new 1 1', 'new 2 1', 'pass',
+               'cancel %d' % who, 'pass', 'pass', 'resume 0', 'pass', 'pass', 'pass']
+        yield ['def 0 l0,w,s2:9,u0', 'defr l0,s2:5,y,s2:6', 'defr l0,s2:8', 'new 0 1', 'new 1 1', 'new 2 1', 'pass',
+               'cancel %d' % who, 'pass', 'resume 0', 'pass', 'pass', 'pass', 'cleanup']
+    # nesting: two mutexes in the same and in opposite order (the second deadlocks until cancel), the SAME mutex twice (inner end releases)
+    yield ['defr l0,y,l1,s2:1,u1,y,u0', 'defr l0,y,l1,s2:2,u1,u0', 'new 0 1', 'new 1 1'] + ['pass'] * 8
+    yield ['defr l0,y,l1,s2:1,u1,u0', 'defr l1,y,l0,s2:2,u0,u1', 'new 0 1', 'new 1 1', 'pass', 'pass', 'pass', 'cancel 0', 'pass', 'pass', 'pass']
+    yield ['defr l0,l0,s2:1,u0,y,s2:2,u0', 'defr l0,s2:3,u0', 'new 0 1', 'new 1 1', 'pass', 'pass', 'pass', 'pass']
+    yield ['defr l0,l0,l0,y,e', 'def 0 l0,s2:3', 'new 0 1', 'new 1 1', 'pass', 'pass', 'pass']
+    yield ['defr l0,u1,u0,u0,l1,l2,u1,y,s2:1', 'def 0 y,l1,s2:2,u1,l2,s2:3,u2', 'new 0 1', 'new 1 1', 'pass', 'pass', 'pass', 'pass']   # `u` of a mutex that is not the innermost scope: plain unlock()
+    yield ['defr l0,l1,l2,l3,t', 'def 0 l3,s2:1', 'new 0 1', 'new 1 1', 'pass', 'pass']                                    # exception inside the scopes: std::terminate
+    yield ['defr l0,n1,y,j1,u0', 'defr l0,s2:1', 'new 0 1', 'pass', 'pass', 'pass', 'pass']                                # the holder joins a routine that needs the mutex: stuck until cancel
+    yield ['defr l0,n1,y,j1,u0', 'defr l0,s2:1', 'new 0 1', 'pass', 'pass', 'cancel 0', 'pass', 'pass', 'pass']
+    yield ['defr l0', 'defr -', 'defr e', 'defr l0,', 'defr', 'defr 0 l0', 'defr l9', 'new 0 1', 'new 1 1', 'new 2 1', 'pass', 'main l0']
+    # ---- (3) state-derived arguments
+    for self_op in ('x0', 'R0', 'j0'):
+        for blk in ('r1', 'l1', 'a0', 'b0', 'w', 'y', 'ca0:1,cw0', 'j1', 'j0'):
+            yield ['def 0 %s,%s,s2:1,%s,y,s2:2' % (self_op, blk, self_op), 'def 0 l1,w', 'new 1 1', 'new 0 1', 'pass', 'pass', 'pass', 'resume 0', 'pass', 'pass']
+    for act in ('x', 'R', 'j'):
+        # the token create() has just returned (index 1 / 2), started or not, before it has run
+        yield ['def 0 n1,%s1,N1,%s2,y,%s1,%s2,s2:1' % (act, act, act, act), 'def 0 r0,s2:2', 'new 0 1', 'pass', 'pass', 'main s0:1', 'pass', 'resume 2', 'pass', 'main s0:2', 'pass', 'pass']
+        yield ['def 1 n1,%s1,N1,%s2,y,%s1,%s2,s2:1' % (act, act, act, act), 'def 1 r0,s2:2', 'new 0 1', 'pass', 'pass', 'main s0:1', 'pass', 'resume 2', 'pass', 'cleanup']
+    # resume / cancel of the joiner by the target, of the holder by a waiter, of a finished routine, of an unknown key; send of the receiver's index
+    yield ['def 0 y,R1,y,x1,y', 'def 0 j0,s2:1', 'new 0 1', 'new 1 1'] + ['pass'] * 6
+    yield ['def 0 l0,w,u0', 'def 0 R0,l0,s2:1,u0,R0,x0', 'new 0 1', 'new 1 1', 'pass', 'pass', 'pass', 'resume 0', 'pass', 'pass']
+    yield ['def 0 -', 'def 0 y,R0,x0,j0,R63,x63,j63,R1,s2:1', 'new 0 1', 'new 1 1', 'pass', 'pass', 'pass', 'pass']
+    yield ['def 0 r0,r0', 'def 0 s0:0,s0:1,s0:0', 'new 0 1', 'new 0 1', 'pass', 'new 1 1', 'pass', 'pass', 'pass']
+    # R<t> as the wake-up of a hand-made wait(): a routine parks in wait(), another resumes it (twice: the second is refused or spurious)
+    for nw in (1, 2, 3):
+        yield ['def 0 w,s2:1,w,s2:2', 'def 0 ' + ','.join('R%d' % k for k in range(nw)) + ',R0,y,R0'] + ['new 0 1'] * nw + ['pass', 'new 1 1', 'pass', 'pass', 'pass', 'pass']
+    # R of a routine blocked in a primitive (spurious wake-up issued by a routine): it must re-register and still be served
+    for w, sig in (('r0', 's0:5'), ('a0', 'v0'), ('l0,u0', 'u0'), ('b0', 'p0'), ('ca0:1,cw0', 'cp0:1')):
+        yield ['def 0 l0,w,u0', 'def 0 %s,s2:1' % w, 'def 0 R1,R1,y,R1,%s' % sig, 'new 0 1', 'new 1 1', 'pass', 'new 2 1', 'pass', 'pass', 'resume 0', 'pass', 'pass', 'pass']
+
+
+def gen_locker(rng):
+    """random RAII programs: Locker scripts and plain lockers on two mutexes, cancel / resume / cleanup at random passes"""
+    nr = rng.choice([2, 3, 4])
+    ops = []
+    for d in range(nr):
+        toks = []
+        for _ in range(rng.choice([2, 3, 5, 7])):
+            m = rng.randrange(2)
+            toks.append(rng.choice(['l%d' % m, 'l%d' % m, 'u%d' % m, 'u%d' % m, 'y', 'y', 'w', 'r1', 's1:%d' % rng.randrange(1, 9), 's2:%d' % rng.randrange(1, 9), 'e',
+                                    'a0', 'b0', 'x%d' % rng.randrange(nr), 'R%d' % rng.randrange(nr), 'j%d' % rng.randrange(nr)]))
+        ops.append(('defr ' if rng.random() < 0.6 else 'def %d ' % rng.randrange(2)) + ','.join(toks))
+    for d in range(nr):
+        ops.append('new %d 1' % d)
+    for _ in range(rng.choice([4, 6, 9])):
+        r = rng.random()
+        ops.append('pass' if r < 0.55 else 'cancel %d' % rng.randrange(nr) if r < 0.7 else 'resume %d' % rng.randrange(nr) if r < 0.85 else
+                   'main s1:3' if r < 0.9 else 'new %d 1' % rng.randrange(nr) if r < 0.96 else 'cleanup')
+    return ops + ['pass', 'pass']
+
+
 def gen_matched(rng):
     """a program of the class of `C18_progress` (producers / consumers / lockers, receives <= sends, acquires <= k + releases):
     the model ends with every routine dead, so must the real scheduler; passes until nothing can be ready any more"""
@@ -335,6 +433,49 @@ def gen_matched(rng):
     return ['def 0 ' + (','.join(d) or '-') for d in defs] + ['new %d 1' % i for i in order] + ['pass'] * (total + 3)
 
 
+def gen_matched2(rng):
+    """round 5: the enlarged class of `C18_progress`: lockers with NESTED critical sections taken in strictly decreasing mutex order,
+    consumers that also `join` routines created earlier (acyclic join graph); the model ends with every routine dead"""
+    c, k = rng.randrange(PR), rng.randrange(PR)
+    defs, sends, rels = [], 0, 0
+    def simple():
+        nonlocal sends, rels
+        o = rng.choice(['y', 's%d:%d' % (c, rng.randrange(1, 100)), 'v%d' % k])
+        sends += o.startswith('s'); rels += o.startswith('v')
+        return o
+    for _ in range(rng.choice([1, 2])):
+        defs.append([simple() for _ in range(rng.randrange(1, 5))])
+    for _ in range(rng.choice([1, 2, 3])):
+        ms = sorted(rng.sample(range(PR), rng.choice([1, 2, 2, 3])), reverse=True)
+        ops = []
+        for m in ms:
+            ops += ['l%d' % m] + [simple() for _ in range(rng.randrange(0, 2))]
+        for m in reversed(ms):
+            ops += [simple() for _ in range(rng.randrange(0, 2))] + ['u%d' % m]
+        defs.append(ops)
+    recvs, acqs = rng.randrange(0, sends + 1), rng.randrange(0, rels + k + 1)
+    ncons = rng.choice([1, 2, 3])
+    base = len(defs)
+    cons = [[] for _ in range(ncons)]
+    for _ in range(recvs): cons[rng.randrange(ncons)].append('r%d' % c)
+    for _ in range(acqs): cons[rng.randrange(ncons)].append('a%d' % k)
+    for i, l in enumerate(cons):
+        rng.shuffle(l)
+        for _ in range(rng.choice([0, 1, 2])):
+            l.insert(rng.randrange(len(l) + 1), 'j%d' % rng.randrange(base + i))
+    defs += cons
+    total = sum(len(d) for d in defs)
+    return ['def 0 ' + (','.join(d) or '-') for d in defs] + ['new %d 1' % i for i in range(len(defs))] + ['pass'] * (total + 4)
+
+
+def big_cases(tier):
+    """scale (round 5): N routines on one channel; the driver runs the model with its tables re-tabulated into arrays (`C18_stepC_eq`)"""
+    for n in ((1000,) if tier == 'quick' else (1000, 10000)):
+        body = 'r0,s1:1,y,r2' if n <= 1000 else 'r0'
+        yield ['stackb 0', 'def 0 ' + body, 'def 0 ' + ','.join(['n0'] * n), 'new 1 1', 'pass',
+               'def 0 ' + ','.join('s0:%d' % (i % 1000) for i in range(n)), 'new 2 1', 'pass', 'pass', 'cleanup']
+
+
 ALPHA = ['r0', 's0:1', 'l0', 'u0', 'a0', 'v0', 'y', 'b0', 'p0']
 
 
@@ -353,6 +494,8 @@ def gen(rng, tier):
         yield ops
     for ops in audit_families():
         yield ops
+    for ops in round5_families():
+        yield ops
     n = 500 if tier == 'quick' else 6000
     for _ in range(n):
         yield gen_case(rng)
@@ -360,6 +503,12 @@ def gen(rng, tier):
         yield gen_backtoback(rng)
     for _ in range(n // 4):
         yield gen_matched(rng)
+    for _ in range(n // 2):
+        yield gen_locker(rng)
+    for _ in range(n // 4):
+        yield gen_matched2(rng)
+    for ops in big_cases(tier):
+        yield ops
     if tier == 'thorough':
         # exhaustive: 2 routines x all scripts of length <= 3 over the reduced alphabet, plus 3 routines x length <= 2
         scripts3 = [list(p) for L in range(1, 4) for p in itertools.product(ALPHA, repeat=L)]
@@ -388,7 +537,10 @@ LEVEL_TEXT = ('Lean 4 theorems over a deterministic model of the coroutine sched
               'reachable state (any scripts, any main-context resume/cancel/cleanup points) gives channel FIFO/exactly-once, mutual exclusion, '
               'the semaphore bound, the cabinet bookkeeping, cleanup() terminating after one sweep with every routine dead, and no lost wake-up (a routine suspended in recv/lock/acquire implies the resource is unavailable; broadcast/'
               'condition/join waiters are registered for the next post); cancel makes every blocking call fail without suspending; tied to the real '
-              'scheduler on every run by differential execution of scripted ucontext routines on the real event loop')
+              'scheduler on every run by differential execution of scripted ucontext routines on the real event loop; round 5: Mutex::Locker '
+              '(RAII scripts: scopes left on return, also when cancelled inside; a failed constructor never releases another routine\'s lock), '
+              'the stack_size argument of create() from 0 (clamp, patches/C18-08), Scheduler::resume() inside routines, progress for nested '
+              'critical sections under a global lock order and acyclic joins, and an array-backed execution of the model proved equal to it')
 LEVEL_NOTE = ('trusted: Lean kernel, hand-written model + differential tie (coverage bounded by the generator, measured), ucontext, Cabinet; '
               'no sanitizer on the implementation side (plain flavour; a valgrind memcheck sample runs in both tiers, larger in thorough)')
 TECHNIQUE = 'Lean 4 invariant proof over all executions of a scheduler model + model/implementation correspondence check'
@@ -420,6 +572,10 @@ def _valgrind_sample():
         cases.append(gen_backtoback(rng))
     aud = [c for c in audit_families() if sum(o.count(',') for o in c) < 100]      # not the many-routine cases
     cases += aud[::9] if quick else aud
+    r5 = list(round5_families())
+    cases += r5[:16] + r5[16::5] if quick else r5          # every stack-size case, a sample of the Locker / state-derived ones
+    for _ in range(6 if quick else 60):
+        cases.append(gen_locker(rng))
     text = ''.join(vlib.case_text(i, c) for i, c in enumerate(cases))
     rc, so, se = vlib.run_proc(['valgrind', '-q', '--error-exitcode=9', exe], text, 900, env={'C18_WATCHDOG': '30'})
     res = {'valgrind': {'cases': len(cases), 'exit': rc, 'errors': se.count('== Invalid') + se.count('== Conditional')}}
